@@ -337,7 +337,7 @@ Plan genReasm(const std::string& prop, int tier, uint64_t batchSeed, uint64_t id
                 nseg = 3;
                 break;
             case 2:
-                nseg = static_cast<int>(r.range(2, maxSeg));
+                nseg = static_cast<int>(tier && r.chance(1, 3) ? r.range(254, 258) : r.range(2, maxSeg));
                 break;
             default:
                 nseg = static_cast<int>(r.range(2, 8));
